@@ -52,7 +52,7 @@ def workRoot (cfg : Cfg) (forest : List Node) (fuel : Nat) (r : Node) : List Tre
          | .dir d _ => some d.dev
          | _ => some 0)
       else none
-    let w : Work := { path := [r.name], depth := 0, view := v, anc := [], rootDev := rootDev }
+    let w : Work := { path := [r.name], depth := rootDepth, view := v, anc := [], rootDev := rootDev }
     [Tree.node w.path (match enterDir cfg w with
       | some a => workContents cfg forest fuel a w.depth w.path w.rootDev v.kids
       | none => [])]
